@@ -139,7 +139,10 @@ def build_harness(ctx):
     lock_dst = os.path.join(HARNESS, 'Cargo.lock')
     if os.path.exists(os.path.join(REPO, 'Cargo.lock')):      # pin the harness to the repository's own dependency versions
         lock_src = open(os.path.join(REPO, 'Cargo.lock')).read()
-        if not os.path.exists(lock_dst) or open(lock_dst).read().count('name = ') < lock_src.count('name = '):
+        cur = open(lock_dst).read() if os.path.exists(lock_dst) else ''
+        # same versions as the repository: only rewrite when a package version of the repository's lock is not in ours
+        pins = set(re.findall(r'name = "([^"]+)"\nversion = "([^"]+)"', lock_src))
+        if not pins <= set(re.findall(r'name = "([^"]+)"\nversion = "([^"]+)"', cur)):
             open(lock_dst, 'w').write(lock_src)
     r = sh(['cargo', 'build', '--release', '--offline'], cwd=HARNESS, env=ENV)
     log(f"[{ctx.prop}] harness build rc={r.returncode} {time.time() - t0:.1f}s")
